@@ -110,6 +110,9 @@ def check_case(ctx, case):
             ctx.count("runs_with_stale_dump_file")
         if use_cli:
             argv = ["-a", "-i", src, "-o", dst, "-d", dump, "--preserve-host-bits", str(fcfg["B4"])] + c02.cli_ip_args(fcfg)
+            if rng.random() < 0.5:
+                argv += [rng.choice(["-l", "--log-level"]), rng.choice(["DEBUG", "DEBUG", "ERROR", "CRITICAL"])]
+                ctx.count("runs_with_log_level_option")
             p = c02.run_cli(argv, rng.randint(1, 9999))
             ctx.count("cli_child_processes")
             if p.returncode != 0:
@@ -117,10 +120,21 @@ def check_case(ctx, case):
                 return
         else:
             pp, pa = fcfg.get("pp"), fcfg.get("pa")
-            nc.af.anonymize_files(src, dst, False, True, salt=fcfg["salt"], dumpfile=dump,
-                                  preserve_prefixes=None if pp is None else list(pp),
-                                  preserve_networks=None if pa is None else list(pa),
-                                  preserve_suffix_v4=fcfg.get("B4"), preserve_suffix_v6=fcfg.get("B6"))
+            import logging
+
+            root = logging.getLogger()
+            lvl = root.level
+            if rng.random() < 0.4 and not case.get("bulk"):
+                # an application that logs at DEBUG (what is logged never changes what is dumped)
+                root.setLevel(logging.DEBUG)
+                ctx.count("runs_with_log_level_option")
+            try:
+                nc.af.anonymize_files(src, dst, False, True, salt=fcfg["salt"], dumpfile=dump,
+                                      preserve_prefixes=None if pp is None else list(pp),
+                                      preserve_networks=None if pa is None else list(pa),
+                                      preserve_suffix_v4=fcfg.get("B4"), preserve_suffix_v6=fcfg.get("B6"))
+            finally:
+                root.setLevel(lvl)
         outs = []
         for i in range(len(files)):
             with open(os.path.join(dst, "f%d.cfg" % i), encoding="utf-8") as fh:
